@@ -378,3 +378,12 @@ def o7(ctx):
 
 
 RULES = [o1, o2, o7]
+
+
+@rule("O1w", doc="compile-fail witnesses: a slot cannot be forged from or read as a raw number", thorough_only=True, once=True)
+def o1w(ctx):
+    from salib import witness
+    witness.check(ctx, ['c17_slot_ctor', 'c17_slot_field'])
+
+
+RULES.append(o1w)
